@@ -128,6 +128,14 @@ def run(ctx):
             # for a float32 x the library forms its steps in float32: their ratios are exact only to float32 rounding, and so is the
             # result of a rule with more than one term (unchanged tree: up to 1.5e-7 relative); "exact to rounding" is then float32's
             tol = 2e-6 * (1 + float(np.max(np.abs(exact))))
+        if tol is not None and meth in ('central', 'forward', 'backward'):
+            # "exact to rounding" for a difference quotient read at step h: the values of f carry a rounding of eps |f(x)|, which the
+            # quotient divides by h (|x| up to 100 makes |f| ~ 1e3; with step ratio 4 the sequence reaches steps ~1e-5)
+            with np.errstate(all='ignore'):
+                hmin = float(np.min(np.abs(np.asarray(info.final_step, dtype=float))))
+                fsz = float(np.max(np.abs(np.asarray(info.f_value))))
+            if hmin > 0 and np.isfinite(fsz):
+                tol = tol + 100.0 * 2.0 ** -52 * fsz / hmin
         bound = tol if tol is not None else 1000 * np.asarray(info.error_estimate) + (1e-5 if xdtype == 'float32' else 1e-7) * (1 + np.abs(exact))
         if np.any(err > bound):
             ctx.violation('Jacobian entry differs from the exact partial derivative', got=J.tolist(), exact=exact.tolist(), **rep)
